@@ -11,11 +11,12 @@ Read off the clang JSON AST (syntax of coq/Model/DynQueue.v):
    the j-th `_dist(_prng)` of an iteration is the parameter dj (exactly two per iteration).
  * both constructors: the initialiser `_next_modulation(__calcModulation(ARG))`; ARG as `BParam name` when it is a
    plain parameter, `BOther text` otherwise  -> `dq_ctor_queue_arg`.
- * `_calcKick()`: the one statement `RFKickMap::_calcKick(_next_modulation.front()[a0], _next_modulation.front()[a1])`
+ * `_calcKick()`: `RFKickMap::_calcKick(a, b)` where a, b denote components of `_next_modulation.front()` - written
+   directly (`front()[k]`, `.at(k)`, `std::get<k>(..)`) or through locals bound to the front entry / a component of it
    -> `dq_calckick_args = [a0; a1]`.
  * `apply()`: each statement must be one of `_calcKick()`, `KickMap::apply()`,
-   `_past_modulation.emplace_back/push_back([std::move](_next_modulation.front()))`, `_next_modulation.pop()`
-   -> `dq_apply_ops` in source order.
+   `_past_modulation.emplace_back/push_back(x)` with x the front entry (`front()`, `std::move(front())`, a local bound to
+   it - not across a pop()), `_next_modulation.pop()`, or a declaration of such a local -> `dq_apply_ops` in source order.
  * `getPastModulation()`: `auto rv = std::move(_past_modulation)` / `= _past_modulation`, `_past_modulation.clear()`,
    `return rv` -> `dq_getpast_ops`.
  * every reference to the member `_next_modulation` in any constructor / method of the class, as (function, use):
@@ -83,6 +84,67 @@ def std_move_arg(n):
 def is_queue_front(n):
     mc = method_call(n)
     return mc is not None and mc[1] == "front" and mc[0] is not None and is_this_member(mc[0], QUEUE) and not mc[2]
+
+
+_SRC = [None]
+
+
+def src_text(n):
+    """source text of a node of src/SM/DynamicRFKickMap.cpp (used only to read the index of std::get<k>)"""
+    r = n.get("range", {})
+    b, e = r.get("begin", {}), r.get("end", {})
+    bo = b.get("offset", b.get("expansionLoc", {}).get("offset"))
+    eo = e.get("offset", e.get("expansionLoc", {}).get("offset"))
+    if bo is None or eo is None:
+        return ""
+    if _SRC[0] is None:
+        _SRC[0] = open(os.path.join(REPO, "src", "SM", "DynamicRFKickMap.cpp"), "rb").read()
+    return _SRC[0][bo:eo + e.get("tokLen", 1)].decode(errors="replace")
+
+
+def symval(n, env):
+    """what an expression denotes in terms of the queue: ("front",) = the front entry (value or reference),
+    ("comp", k) = its k-th component; None = something else.  env: locals bound to such values."""
+    if n is None:
+        return None
+    if is_queue_front(n):
+        return ("front",)
+    mv = std_move_arg(n)
+    if mv is not None:
+        return symval(mv, env)
+    u = uw(n)
+    k = u.get("kind")
+    if k == "DeclRefExpr" and u["referencedDecl"].get("name") in env:
+        return env[u["referencedDecl"]["name"]]
+    if k == "CXXOperatorCallExpr":
+        ks = kids(u)
+        c = uw(ks[0])
+        if c.get("kind") == "DeclRefExpr" and c["referencedDecl"].get("name") == "operator[]" and len(ks) == 3 and \
+                symval(ks[1], env) == ("front",) and uw(ks[2]).get("kind") == "IntegerLiteral":
+            return ("comp", int(uw(ks[2])["value"]))
+    if k == "CXXMemberCallExpr":
+        mc = method_call(u)
+        if mc is not None and mc[1] == "at" and len(mc[2]) == 1 and symval(mc[0], env) == ("front",) and uw(mc[2][0]).get("kind") == "IntegerLiteral":
+            return ("comp", int(uw(mc[2][0])["value"]))
+    if k == "CallExpr":
+        ks = kids(u)
+        c = uw(ks[0])
+        if c.get("kind") == "DeclRefExpr" and c["referencedDecl"].get("name") == "get" and len(ks) == 2 and symval(ks[1], env) == ("front",):
+            m = re.search(r"get\s*<\s*(\d+)\s*>", src_text(u))
+            if m:
+                return ("comp", int(m.group(1)))
+    return None
+
+
+def bind_locals(s, env, what):
+    """a declaration statement whose variables are all bound to the front entry or one of its components"""
+    for v in kids(s):
+        if v.get("kind") != "VarDecl" or not kids(v):
+            raise TranslateError("%s: declaration not understood" % what)
+        val = symval(kids(v)[0], env)
+        if val is None:
+            raise TranslateError("%s: local %s is not the front entry of the queue or a component of it: %s" % (what, v.get("name"), text(kids(v)[0])[:120]))
+        env[v["name"]] = val
 
 
 def text(n):
@@ -299,29 +361,35 @@ def translate():
     # _calcKick
     ck = one("_calcKick")
     st = kids([c for c in kids(ck) if c.get("kind") == "CompoundStmt"][0])
-    if len(st) != 1:
-        raise TranslateError("_calcKick has %d statements" % len(st))
-    mc = method_call(st[0])
+    env = {}
+    for s_ in st[:-1]:
+        if s_.get("kind") != "DeclStmt":
+            raise TranslateError("_calcKick: statement not understood: %s" % text(s_)[:160])
+        bind_locals(s_, env, "_calcKick")
+    if not st:
+        raise TranslateError("_calcKick is empty")
+    mc = method_call(st[-1])
     if mc is None or mc[1] != "_calcKick" or "RFKickMap" not in (base_class_of_this(mc[0]) or "") or len(mc[2]) != 2:
-        raise TranslateError("_calcKick is not RFKickMap::_calcKick(a, b): %s" % text(st[0])[:160])
+        raise TranslateError("_calcKick does not end in RFKickMap::_calcKick(a, b): %s" % text(st[-1])[:160])
     ckargs = []
     for a in mc[2]:
-        u = uw(a)
-        ok = False
-        if u.get("kind") == "CXXOperatorCallExpr":
-            ks = kids(u)
-            c = uw(ks[0])
-            if c.get("kind") == "DeclRefExpr" and c["referencedDecl"].get("name") == "operator[]" and len(ks) == 3 and \
-                    is_queue_front(ks[1]) and uw(ks[2]).get("kind") == "IntegerLiteral":
-                ckargs.append(int(uw(ks[2])["value"]))
-                ok = True
-        if not ok:
-            raise TranslateError("_calcKick: argument is not _next_modulation.front()[k]: %s" % text(a)[:120])
+        v = symval(a, env)
+        if v is None or v[0] != "comp":
+            raise TranslateError("_calcKick: argument is not a component of _next_modulation.front(): %s" % text(a)[:120])
+        ckargs.append(v[1])
     # apply
     ap = one("apply")
     aops = []
-    for s in kids([c for c in kids(ap) if c.get("kind") == "CompoundStmt"][0]):
-        mc = method_call(s)
+    env = {}
+    bound_at = {}          # local -> number of pops emitted when it was bound
+    for s_ in kids([c for c in kids(ap) if c.get("kind") == "CompoundStmt"][0]):
+        if s_.get("kind") == "DeclStmt":
+            before = set(env)
+            bind_locals(s_, env, "apply()")
+            for nm in set(env) - before:
+                bound_at[nm] = aops.count("APop")
+            continue
+        mc = method_call(s_)
         op = None
         if mc is not None:
             obj, name, args = mc
@@ -330,13 +398,16 @@ def translate():
             elif name == "apply" and not args and "KickMap" in (base_class_of_this(obj) or "") and "RFKickMap" not in (base_class_of_this(obj) or ""):
                 op = "AKickApply"
             elif name in ("emplace_back", "push_back") and is_this_member(obj, PAST) and len(args) == 1:
-                a = std_move_arg(args[0])
-                if is_queue_front(a if a is not None else args[0]):
+                if symval(args[0], env) == ("front",):
+                    u = uw(std_move_arg(args[0]) or args[0])
+                    if u.get("kind") == "DeclRefExpr" and u["referencedDecl"].get("name") in bound_at and \
+                            bound_at[u["referencedDecl"]["name"]] != aops.count("APop"):
+                        raise TranslateError("apply(): the local %s was bound to the front entry before a pop() and is recorded after it" % u["referencedDecl"]["name"])
                     op = "APushFrontToPast"
             elif name == "pop" and not args and is_this_member(obj, QUEUE):
                 op = "APop"
         if op is None:
-            raise TranslateError("apply(): statement not understood: %s" % (text(s)[:200] if s.get("kind") not in ("IfStmt", "ForStmt", "WhileStmt") else s.get("kind") + " ..."))
+            raise TranslateError("apply(): statement not understood: %s" % (text(s_)[:200] if s_.get("kind") not in ("IfStmt", "ForStmt", "WhileStmt") else s_.get("kind") + " ..."))
         aops.append(op)
     # getPastModulation
     gp = one("getPastModulation")
